@@ -148,10 +148,12 @@ class LexInfZ3(Inference):
             return False
         if v < f:
             return True
+        if partition_index == 0:
+            return False
+        # lexicographic minimum: some verifying set must beat every falsifying set
         for xi_i in [s for s in xi_i_set if len(s) == v]:
+            better_than_all = True
             for xi_i_prime in [s for s in xi_i_prime_set if len(s) == f]:
-                if partition_index == 0:
-                    return False
                 opt_v.push()
                 opt_f.push()
                 [opt_v.add(c.make_A_then_not_B()) for c in xi_i]
@@ -170,8 +172,11 @@ class LexInfZ3(Inference):
                 opt_v.pop()
                 opt_f.pop()
                 if result == False:
-                    return False
-        return True
+                    better_than_all = False
+                    break
+            if better_than_all:
+                return True
+        return False
 
     """
     Minimal Correction Subset Calculation
